@@ -997,26 +997,32 @@ func (g *generatorObject) step(res Value, resType resultType, ex *Exception) Val
 }
 
 func (g *generatorObject) delegate(v Value) Value {
+	// yield* is evaluated inside the generator body: the generator is "executing" while
+	// GetIterator and the delegate's methods run (re-entrant next/throw/return must throw a TypeError).
+	state := g.state
+	g.state = genStateExecuting
 	ex := g.val.runtime.try(func() {
 		g.delegated = g.val.runtime.getIterator(v, nil)
 	})
 	if ex != nil {
 		g.delegated = nil
-		g.state = genStateCompleted
 		return g.step(g.gen.nextThrow(ex))
 	}
+	g.state = state
 	return g.next(_undefined)
 }
 
 func (g *generatorObject) tryCallDelegated(fn func() (Value, bool)) (ret Value, done bool) {
+	state := g.state
+	g.state = genStateExecuting
 	ex := g.val.runtime.try(func() {
 		ret, done = fn()
 	})
 	if ex != nil {
 		g.delegated = nil
-		g.state = genStateExecuting
 		return g.step(g.gen.nextThrow(ex)), false
 	}
+	g.state = state
 	return
 }
 
